@@ -33,12 +33,19 @@ def streams_for(prop):
         S.append(dict(name="array-ops/arith", gen=ga.gen_arith, impl=ia.run, oracle=ra.check_case))
     elif prop == "C07":
         S.append(dict(name="array-ops/reduce", gen=ga.gen_reduce, impl=ia.run, oracle=ra.check_case))
+    elif prop == "C14":
+        import gen_dims
+        import ref_dims
+        S.append(dict(name="dims/pairs", gen=gen_dims.gen_pairs, impl=ia.run, oracle=ref_dims.check_case))
+        S.append(dict(name="dims/queries", gen=gen_dims.gen_queries, impl=ia.run, oracle=ref_dims.check_case))
+        S.append(dict(name="dims/histories", gen=gen_dims.gen_histories, impl=ia.run, oracle=ref_dims.check_case))
     return S
 
 
 PROPS = {
     "C01": dict(title="arithmetic by label"),
     "C07": dict(title="summing, casting, shares"),
+    "C14": dict(title="dimension sets as ordered sets"),
 }
 
 
@@ -91,7 +98,7 @@ def run_streams(prop, tier, seed, search=False):
         distinct = len({(ln, o) for ln, o in zip(lines, impl_out) if o.startswith("ok ") and not ln.startswith(("dim ", "dset ", "case "))})
         result["streams"].append({"name": st["name"], "stats": stats, "disagreements": dis,
                                   "samples": samples, "distinct_ok": distinct})
-        if search and st.get("oracle"):
+        if (search or os.environ.get("VERIF_FORCE_SEARCH")) and st.get("oracle"):
             pos = 0
             for c in cases:
                 io = impl_out[pos:pos + len(c)]
